@@ -49,9 +49,13 @@ package state
 //@   ensures err != nil ==> result0 == nil
 //@   ensures err == nil ==> fresh(result0) && AGen(result0) == GGen[address] && AActB(result0) == GActB[address] && AActS(result0) == GActS[address] && ADebB(result0) == GDebB[address] && ADebS(result0) == GDebS[address]
 //@   ensures err == nil ==> AValid(result0)
+//@   ensures err == nil ==> GAcctSum >= StoredSum(address)
+//@   ensures err != nil ==> unavail(err) || ufb("addrInvalid", address)
+//@   note GAcctSum >= StoredSum: a sum of non-negative stored balances dominates each summand
 
 //@ func MutableState.SetAccount
 //@   trusted
+//@   ensures err != nil ==> unavail(err)
 //@   requires account != nil
 //@   modifies GGen, GActB, GActS, GDebB, GDebS, GAcctSum, GWrites
 //@   ensures err == nil ==> mapEq(GGen, upd(old(GGen), addr, AGen(account))) && mapEq(GActB, upd(old(GActB), addr, AActB(account))) && mapEq(GActS, upd(old(GActS), addr, AActS(account)))
@@ -61,60 +65,70 @@ package state
 
 //@ func ImmutableState.CommonPool
 //@   trusted
+//@   ensures err != nil ==> unavail(err)
 //@   modifies nothing
 //@   ensures err != nil ==> result0 == nil
 //@   ensures err == nil ==> fresh(result0) && QV(result0) == GCommon && GCommon >= 0
 
 //@ func MutableState.SetCommonPool
 //@   trusted
+//@   ensures err != nil ==> unavail(err)
 //@   requires q != nil
 //@   modifies GCommon, GWrites
 //@   ensures err == nil ==> GCommon == QV(q) && GWrites > old(GWrites)
 
 //@ func ImmutableState.TotalSupply
 //@   trusted
+//@   ensures err != nil ==> unavail(err)
 //@   modifies nothing
 //@   ensures err != nil ==> result0 == nil
 //@   ensures err == nil ==> fresh(result0) && QV(result0) == GSupply && GSupply >= 0
 
 //@ func MutableState.SetTotalSupply
 //@   trusted
+//@   ensures err != nil ==> unavail(err)
 //@   requires q != nil
 //@   modifies GSupply, GWrites
 //@   ensures err == nil ==> GSupply == QV(q) && GWrites > old(GWrites)
 
 //@ func ImmutableState.LastBlockFees
 //@   trusted
+//@   ensures err != nil ==> unavail(err)
 //@   modifies nothing
 //@   ensures err != nil ==> result0 == nil
 //@   ensures err == nil ==> fresh(result0) && QV(result0) == GLastFees && GLastFees >= 0
 
 //@ func MutableState.SetLastBlockFees
 //@   trusted
+//@   ensures err != nil ==> unavail(err)
 //@   requires q != nil
 //@   modifies GLastFees, GWrites
 //@   ensures err == nil ==> GLastFees == QV(q) && GWrites > old(GWrites)
 
 //@ func ImmutableState.GovernanceDeposits
 //@   trusted
+//@   ensures err != nil ==> unavail(err)
 //@   modifies nothing
 //@   ensures err != nil ==> result0 == nil
 //@   ensures err == nil ==> fresh(result0) && QV(result0) == GGovDep && GGovDep >= 0
 
 //@ func MutableState.SetGovernanceDeposits
 //@   trusted
+//@   ensures err != nil ==> unavail(err)
 //@   requires q != nil
 //@   modifies GGovDep, GWrites
 //@   ensures err == nil ==> GGovDep == QV(q) && GWrites > old(GWrites)
 
 //@ func ImmutableState.Delegation
 //@   trusted
+//@   ensures err != nil ==> unavail(err)
 //@   modifies nothing
 //@   ensures err != nil ==> result0 == nil
 //@   ensures err == nil ==> fresh(result0) && QV(&result0.Shares) == GDel[escrowAddr][delegatorAddr] && QV(&result0.Shares) >= 0
 
 //@ func MutableState.SetDelegation
 //@   trusted
+//@   ensures err != nil ==> unavail(err)
 //@   requires d != nil
 //@   modifies GDel, GDelSum, GWrites
 //@   ensures err == nil ==> mapEq(GDel, upd(old(GDel), escrowAddr, upd(old(GDel)[escrowAddr], delegatorAddr, QV(&d.Shares))))
@@ -123,6 +137,7 @@ package state
 
 //@ func ImmutableState.ConsensusParameters
 //@   trusted
+//@   ensures err != nil ==> unavail(err)
 //@   modifies nothing
 //@   ensures err != nil ==> result0 == nil
 //@   ensures err == nil ==> fresh(result0)
@@ -216,3 +231,30 @@ package state
 //@   loop 2 invariant GAcctSum + QV(commonPool) == old(GAcctSum) + old(GCommon)
 //@   loop 2 invariant GCommon == old(GCommon) && GGovDep == old(GGovDep) && GLastFees == old(GLastFees) && GSupply == old(GSupply)
 //@   loop 2 invariant SharesConsistentWithOld()
+
+//@ func ImmutableState.DebondingInterval
+//@   trusted
+//@   modifies nothing
+//@   ensures err != nil ==> unavail(err)
+
+//@ func ImmutableState.DebondingDelegation
+//@   trusted
+//@   modifies nothing
+//@   ensures err != nil ==> result0 == nil && unavail(err)
+//@   ensures err == nil ==> fresh(result0) && QV(&result0.Shares) == GDeb[delegatorAddr][escrowAddr][uint64(epoch)] && QV(&result0.Shares) >= 0
+
+//@ func MutableState.SetDebondingDelegation
+//@   trusted
+//@   modifies GDeb, GDebSum, GWrites
+//@   ensures err != nil && !unavail(err) ==> GWrites == old(GWrites) && mapEq(GDeb, old(GDeb)) && mapEq(GDebSum, old(GDebSum))
+//@   ensures err == nil && d != nil ==> mapEq(GDeb, upd(old(GDeb), delegatorAddr, upd(old(GDeb)[delegatorAddr], escrowAddr, upd(old(GDeb)[delegatorAddr][escrowAddr], uint64(epoch), old(GDeb)[delegatorAddr][escrowAddr][uint64(epoch)] + QV(&d.Shares)))))
+//@   ensures err == nil && d != nil ==> mapEq(GDebSum, upd(old(GDebSum), escrowAddr, old(GDebSum)[escrowAddr] + QV(&d.Shares)))
+//@   ensures err == nil && d == nil ==> mapEq(GDeb, upd(old(GDeb), delegatorAddr, upd(old(GDeb)[delegatorAddr], escrowAddr, upd(old(GDeb)[delegatorAddr][escrowAddr], uint64(epoch), 0))))
+//@   ensures err == nil && d == nil ==> mapEq(GDebSum, upd(old(GDebSum), escrowAddr, old(GDebSum)[escrowAddr] - old(GDeb)[delegatorAddr][escrowAddr][uint64(epoch)]))
+//@   ensures err == nil ==> GWrites > old(GWrites)
+
+//@ func MutableState.RemoveFromDebondingQueue
+//@   trusted
+//@   modifies GWrites
+//@   ensures err != nil ==> unavail(err)
+//@   ensures err == nil ==> GWrites > old(GWrites)
